@@ -7,7 +7,7 @@ Definition check (c : case) : verdict :=
   let div := if cint c then qquot else rdiv in
   let ys := run (step div (cN c) false) init (cxs c) in
   let s := exec (step div (cN c) false) init (cxs c) in
-  let out_ok := negb (cpanic c) && qlist_eqb ys (cys c) in
+  let out_ok := negb (cpanic c) && qlist_eqb (lastn (length (cys c)) ys) (cys c) in
   let st_ok := oqeqb (mean s) (cmean c) && qlist_eqb (taps s) (ctaps c) && qeqb (weight s) (cweight c) in
   let spec_ok := negb (cpanic c) && mean_spec_okb div (cN c) (cxs c) (cys c) in
   let nt := (cN c <? length (cxs c)) && negb (qeqb (hd 0 (cxs c)) 0) in
